@@ -265,6 +265,36 @@ func storedRoutes(t *testing.T, rep *kit.Report, env kit.Env, evals, nontrivial 
 					rep.Violate("stored/panic", fmt.Sprintf("AddRoute panicked: %v: %s", pv, desc), desc)
 					continue
 				}
+				// a route derived from a copy of the stored entry (as code that looks a
+				// route up and re-announces a variant of it would) must not disturb the
+				// blocks of the entry it was copied from.
+				es := rt.VerifEntries()
+				if len(es) == 1 && len(es[0].Path.Hops) >= 2 {
+					orig := es[0]
+					wantF := append([]byte(nil), orig.Path.ForwardBlock...)
+					wantR := append([]byte(nil), orig.Path.ReturnBlock...)
+					derived := orig
+					derived.DstIP = netip.MustParseAddr("fd10:a::a")
+					derived.Path.Hops = append([]m.SwitchHop(nil), orig.Path.Hops...)
+					derived.Path.Hops[len(derived.Path.Hops)-1].Router = derived.DstIP
+					for i := range derived.Path.Hops {
+						if i < len(derived.Path.Hops)-1 {
+							derived.Path.Hops[i].ForwardLabel = 3
+						}
+						if i > 0 {
+							derived.Path.Hops[i].ReturnLabel = 5
+						}
+					}
+					if p, pv := kit.Try(func() { _, _ = rt.AddRoute(derived) }); p {
+						rep.Violate("stored/panic", fmt.Sprintf("AddRoute of a derived route panicked: %v: %s", pv, desc), desc)
+						continue
+					}
+					for _, e := range rt.VerifEntries() {
+						if e.DstIP == orig.DstIP && (!bytes.Equal(e.Path.ForwardBlock, wantF) || !bytes.Equal(e.Path.ReturnBlock, wantR)) {
+							rep.Violate("stored/blocks-changed-by-other-route", fmt.Sprintf("adding a route derived from a copy of the stored entry changed the stored entry's blocks to %x / %x (were %x / %x): %s", e.Path.ForwardBlock, e.Path.ReturnBlock, wantF, wantR, desc), desc)
+						}
+					}
+				}
 				rep.Outcome("stored/ok")
 			}
 		}
